@@ -430,6 +430,62 @@ func statefulUses(root string, fns []pathFn) (globals, forks []string) {
 	return
 }
 
+// startRecovers: in round1.Start, the range loop over r.futureMessages calls r.<m>(msg) where <m> is
+// either Update itself (false) or a round1 method that both calls r.Update and contains a deferred recover().
+func startRecovers(piece string) bool {
+	start := findFunc(piece, "round1", "Start")
+	callee := ""
+	ast.Inspect(start.Body, func(n ast.Node) bool {
+		rs, ok := n.(*ast.RangeStmt)
+		if !ok || !strings.Contains(show(rs.X), "futureMessages") {
+			return true
+		}
+		ast.Inspect(rs.Body, func(m ast.Node) bool {
+			if c, ok := m.(*ast.CallExpr); ok {
+				if sel, ok := c.Fun.(*ast.SelectorExpr); ok && show(sel.X) == "r" && len(c.Args) == 1 && callee == "" {
+					callee = sel.Sel.Name
+				}
+			}
+			return true
+		})
+		return false
+	})
+	if callee == "" || callee == "Update" {
+		return false
+	}
+	f, err := parser.ParseFile(fset, piece, nil, 0)
+	if err != nil {
+		return false
+	}
+	for _, d := range f.Decls {
+		fd, ok := d.(*ast.FuncDecl)
+		if !ok || fd.Name.Name != callee || fd.Recv == nil {
+			continue
+		}
+		hasRecover, hasUpdate := false, false
+		ast.Inspect(fd.Body, func(n ast.Node) bool {
+			switch x := n.(type) {
+			case *ast.DeferStmt:
+				ast.Inspect(x, func(m ast.Node) bool {
+					if c, ok := m.(*ast.CallExpr); ok {
+						if id, ok := c.Fun.(*ast.Ident); ok && id.Name == "recover" {
+							hasRecover = true
+						}
+					}
+					return true
+				})
+			case *ast.CallExpr:
+				if sel, ok := x.Fun.(*ast.SelectorExpr); ok && sel.Sel.Name == "Update" {
+					hasUpdate = true
+				}
+			}
+			return true
+		})
+		return hasRecover && hasUpdate
+	}
+	return false
+}
+
 func leanStrs(xs []string) string {
 	var p []string
 	for _, x := range xs {
@@ -515,6 +571,8 @@ func main() {
 	fmt.Printf("def pathGlobals : List String := %s\n\n", leanStrs(globals))
 	fmt.Println("/-- reads of the fork configuration on the path -/")
 	fmt.Printf("def pathForkReads : List String := %s\n\n", leanStrs(forks))
+	fmt.Println("/-- the loop of `round1.Start` hands each stored message to a method that calls `Update` under its own `recover` -/")
+	fmt.Printf("def startRecovers : Bool := %v\n\n", startRecovers(piece))
 	fmt.Println("/-- `round1.Update` compares `si.GetDataHash()` with `bh.Hash` before the share is counted. -/")
 	fmt.Printf("def bindsHash : Bool := %v\n\n", binds)
 	fmt.Println("end Rangers.Generated.C15Facts")
